@@ -252,7 +252,7 @@ INJECT = ["dup_type_struct", "dup_type_enum", "dup_field", "dup_binding", "dup_e
           "type_names_case", "field_names_case", "enumerator_names_case", "enumerator_values_congruent",
           # ill-formed look-alikes (MUST fail)
           "service_case_mismatch", "service_named_like_struct", "wide_can_message_enum",
-          "can_binding_to_enum", "can_binding_case_mismatch"]
+          "can_binding_to_enum", "can_binding_case_mismatch", "wide_can_message_dup_field_ids"]
 
 
 @st.composite
@@ -372,6 +372,13 @@ def g2_case(draw):
             other = st_.name.swapcase()
             if other not in {d.name for d in s.decls if isinstance(d, (M.Struct, M.Enum))}:
                 s.decls.append(M.Impl("can", other, "CaseBoundQ", [("id", 964)]))
+        elif tw == "wide_can_message_dup_field_ids":
+            # 72 bits; only 64 (or fewer) if fields sharing an id are counted once
+            n = 9 + k % 2
+            ids = list(range(n))
+            ids[(k // 2) % (n - 1) + 1] = ids[(k // 2) % (n - 1)]
+            s.decls.append(M.Struct("WideDq", [M.Field(f"f{i}", fid, M.U(8)) for i, fid in enumerate(ids)]))
+            s.decls.append(M.Impl("can", "WideDq", None, [("id", 965)]))
         elif tw == "second_struct":
             s.decls.append(M.Struct("SecondQ", [M.Field("a", 0, M.U(8))]))
         elif tw == "same_id_other_protocol":
